@@ -14,7 +14,7 @@ import (
 func init() {
 	register(&Prop{
 		ID: "C11",
-		Decided: "(1) termination: every loop of the lexer and of the token-level parser reachable from rsql.Parse is a range loop, or is bounded by a counter compared on an exit edge, or consumes input on every cycle (reaches Lexer.readChar) and is left once every token is EOF / the current byte is 0; every recursive cycle among the parser functions carries a depth counter compared with a constant (or is the one reviewed helper whose depth is bounded by what it recurses on); (2) no panic(...) call and no single-value type assertion is reachable from rsql.Parse inside the module; (3) clause completeness: every field of SelectStatement and WindowDefinition that a parser function stores to is read by ToStreamConfig or a function it calls; (4) every token type a clause parser tests for can be produced by the lexer; (5) keywords are matched case-insensitively (lookupIdent switches on strings.ToUpper/ToLower/EqualFold of the identifier) and the whitespace skipper covers space, tab, newline and carriage return.",
+		Decided: "(1) termination: every loop of the lexer and of the token-level parser reachable from rsql.Parse is a range loop, or is bounded by a counter compared on an exit edge, or consumes input on every cycle (reaches Lexer.readChar) and is left once every token is EOF / the current byte is 0; every recursive cycle among the parser functions carries a depth counter compared with a constant (or is the one reviewed helper whose depth is bounded by what it recurses on); (2) no panic(...) call and no single-value type assertion is reachable from rsql.Parse inside the module; (3) clause completeness: every field of SelectStatement and WindowDefinition that a parser function stores to is read by ToStreamConfig or a function it calls; (4) every token type a clause parser tests for can be produced by the lexer; (5) keywords are matched case-insensitively: lookupIdent switches on a case-folded copy of the identifier, and every lookup in a table of upper-case keywords anywhere in package rsql is done on a case-folded word (folded in the function or by every caller) and the whitespace skipper covers space, tab, newline and carriage return.",
 		NotDecided: "that the configuration faithfully reflects clause text (token re-joining with heuristic spacing), keyword-like text inside literals, equality of results across layouts, termination of index-scanning string helpers outside Lexer/Parser (listed in the evidence under parser_loops_not_decided), index safety of slicing in general (the compiler's unproven bounds checks are not enumerated in the quick tier).",
 		Assumptions: []string{"at end of input Lexer.NextToken returns TokenEOF with an empty Value forever and Lexer.ch is 0 (read in NextToken/readChar)", "tokens obtained before a loop and compared inside it are also taken as EOF in the steady state"},
 		Run: runC11,
@@ -155,6 +155,7 @@ func runC11(a *A) {
 			a.Check(lexerMakes[k], "parser-tests:"+n, tested[k], "a clause parser tests for "+n+" and the lexer can produce it", "a clause parser tests for "+n+" but the lexer never produces a token of that type: the clause can never be recognised")
 		}
 	})
+	a.Rule("shape/keyword-case", 3, func() { a.ruleKeywordCase() })
 	a.Rule("shape/layout-and-case", 2, func() {
 		li := a.Method("rsql", "Lexer", "lookupIdent")
 		// the switch tag derives from strings.ToUpper/ToLower of the identifier parameter
@@ -204,4 +205,134 @@ func runC11(a *A) {
 		}
 		a.Check(len(missing) == 0, fname(ws)+"#layout", ws.Pos(), "space, tab, newline and carriage return are skipped between tokens", "the whitespace skipper does not skip "+strings.Join(missing, ", ")+": that layout character changes the parse")
 	})
+}
+
+// ruleKeywordCase: every lookup of a string in a table of upper-case keywords (a switch over >= 3
+// upper-case constants, or a map whose constant keys are upper-case words) is done on a case-folded
+// value: folded inside the function, or by every caller.
+func (a *A) ruleKeywordCase() {
+	upper := func(s string) bool {
+		if len(s) < 2 {
+			return false
+		}
+		for _, r := range s {
+			if !(r >= 'A' && r <= 'Z' || r == '_') {
+				return false
+			}
+		}
+		return true
+	}
+	folded := func(v ssa.Value) bool {
+		s := TermOf(v, nil).String()
+		return strings.Contains(s, "strings.ToUpper(") || strings.Contains(s, "strings.ToLower(")
+	}
+	// keys of a map value: constants stored by MapUpdate into the MakeMap (local or global initialiser)
+	mapKeys := func(m ssa.Value) []string {
+		var keys []string
+		var mk ssa.Value = m
+		if u, ok := m.(*ssa.UnOp); ok {
+			if g, ok := u.X.(*ssa.Global); ok && g.Pkg != nil {
+				if init := g.Pkg.Func("init"); init != nil {
+					allInstrs(init, func(in ssa.Instruction) {
+						if st, ok := in.(*ssa.Store); ok && st.Addr == ssa.Value(g) {
+							mk = st.Val
+						}
+					})
+				}
+			}
+		}
+		if refs := mk.Referrers(); refs != nil {
+			for _, r := range *refs {
+				if mu, ok := r.(*ssa.MapUpdate); ok && mu.Map == mk {
+					if k, ok := mu.Key.(*ssa.Const); ok && k.Value != nil && k.Value.Kind() == constant.String {
+						keys = append(keys, constant.StringVal(k.Value))
+					}
+				}
+			}
+		}
+		return keys
+	}
+	n := 0
+	for _, fn := range a.ModFuncs {
+		if fn.Pkg == nil || fn.Pkg.Pkg.Path() != modPath+"/rsql" || fn.Blocks == nil {
+			continue
+		}
+		// values looked up in keyword tables inside fn
+		type use struct {
+			v   ssa.Value
+			pos token.Pos
+			n   int
+		}
+		cmpCount := map[ssa.Value]int{}
+		cmpPos := map[ssa.Value]token.Pos{}
+		var uses []use
+		allInstrs(fn, func(in ssa.Instruction) {
+			switch x := in.(type) {
+			case *ssa.BinOp:
+				if x.Op == token.EQL {
+					if k, ok := x.Y.(*ssa.Const); ok && k.Value != nil && k.Value.Kind() == constant.String && upper(constant.StringVal(k.Value)) {
+						cmpCount[x.X]++
+						cmpPos[x.X] = x.Pos()
+					}
+				}
+			case *ssa.Lookup:
+				if _, isMap := x.X.Type().Underlying().(*types.Map); isMap && isStringType(x.Index.Type()) {
+					ks := mapKeys(x.X)
+					up := 0
+					for _, k := range ks {
+						if upper(k) {
+							up++
+						}
+					}
+					if up >= 3 && up == len(ks) {
+						uses = append(uses, use{x.Index, x.Pos(), up})
+					}
+				}
+			}
+		})
+		for v, c := range cmpCount {
+			if c >= 3 {
+				uses = append(uses, use{v, cmpPos[v], c})
+			}
+		}
+		for _, u := range uses {
+			n++
+			construct := fmt.Sprintf("%s#keyword-lookup", fname(fn))
+			if folded(u.v) {
+				a.Ok(construct, u.pos, "looked up on a case-folded value (%d upper-case keywords)", u.n)
+				continue
+			}
+			// the raw value is a parameter: every caller must fold
+			p, isParam := u.v.(*ssa.Parameter)
+			if !isParam {
+				// EqualFold-style or a token Value compared as written
+				a.Bad(construct, u.pos, "%s is compared with %d upper-case keywords as written (no strings.ToUpper/EqualFold): a lower-case keyword is not recognised, so keyword case changes the parse", TermOf(u.v, nil), u.n)
+				continue
+			}
+			idx := -1
+			for i, q := range fn.Params {
+				if q == p {
+					idx = i
+				}
+			}
+			var bad []string
+			sites := 0
+			for _, caller := range a.ModFuncs {
+				for _, c := range callsTo(caller, fn) {
+					sites++
+					if !folded(callCommon(c).Args[idx]) {
+						bad = append(bad, a.pos(c.Pos()))
+					}
+				}
+			}
+			if len(bad) == 0 {
+				a.Ok(construct, u.pos, "the %d call site(s) pass a case-folded word", sites)
+			} else {
+				a.Bad(construct, u.pos, "%s matches its argument against %d upper-case keywords as written, and the call site(s) %v pass a word that is not case-folded: keyword case changes what the parser builds", fname(fn), u.n, bad)
+			}
+		}
+	}
+	if n == 0 {
+		a.Und("keyword-lookup", token.NoPos, "no keyword table lookup found in package rsql")
+	}
 }
